@@ -199,4 +199,11 @@ def split_array(data, f_sample_num=None, t_sample_num=None,
     if f_trim:
         split_data = list(filter(lambda A: A.shape[1] == f_sample_num,
                                  split_data))
+    if len(set(A.shape for A in split_data)) > 1:
+        # Ragged edge tiles can't be stacked into a regular ndarray;
+        # return them as an array of (differently shaped) arrays
+        ragged_data = np.empty(len(split_data), dtype=object)
+        for i, A in enumerate(split_data):
+            ragged_data[i] = A
+        return ragged_data
     return np.array(split_data)
